@@ -485,6 +485,20 @@ def run(ctx):
             pcs = W.buffer_seq(snap) or []
             okc = any(values.contains(W.expand(x), lambda s: is_call(s) and s[1].endswith("ServerStats::iter")) for x in pcs)
     if len(push) == 1 and len(clear) == 1 and sc.dominates(push[0], clear[0]) and not okc:
+        snap = W.expand(cev.call_args(push[0])[1])
+        if isinstance(snap, tuple) and snap and snap[0] == "obj":
+            # a vector filled by an explicit loop over the recorder's iterator (`for (_, c) in self.stats_recorder.iter() { snapshot.push(*c) }`)
+            from lib import iter_elem as _iter_elem
+            writes_ = [(b_, callee_name(c_)) for (b_, c_, ai_, ap_) in W.obj_events(snap) if ai_ == 0 and sc.blocks[b_].term["arg_tys"][0].startswith("&mut")
+                       and callee_name(c_) not in ("reserve", "reserve_exact", "force_push")]
+            if writes_ and all(n_ == "push" for b_, n_ in writes_):
+                good_ = True
+                for b_, n_ in writes_:
+                    ie_ = _iter_elem(W, W.expand(cev.call_args(b_)[1]))
+                    if not (ie_ and values.contains(W.expand(ie_["container"]), lambda s_: is_call(s_) and s_[1].endswith("ServerStats::iter"))):
+                        good_ = False
+                okc = good_
+    if len(push) == 1 and len(clear) == 1 and sc.dominates(push[0], clear[0]) and not okc:
         # the snapshot taken through a provided method of the trait (`fn snapshot(&self) -> Vec<_> { self.iter()..collect() }`) that no
         # implementation overrides
         snap = W.expand(cev.call_args(push[0])[1])
